@@ -429,6 +429,8 @@ def coq(e):
         return "(Opaque %s)" % coq_string(e[1][:160])
     if k == "declined":
         return "Declined"
+    if k == "guard":
+        return "(Guard %s %s)" % (coq(e[1]), coq(e[2]))
     raise RuntimeError(e)
 
 
@@ -510,6 +512,7 @@ def parse_cfold(src, types, macros, leafs, sig):
                 raise CParseError("compound statement")
             env = {}
             result = None
+            guards = []
             for s in sts:
                 if re.fullmatch(r"if\s*\(\s*!\s*cfoldFoldAll\s*\)\s*break", s):
                     row["guard"] = "All"
@@ -519,6 +522,10 @@ def parse_cfold(src, types, macros, leafs, sig):
                     continue
                 elif s == "break":
                     break
+                elif re.fullmatch(r"if\s*\((.*)\)\s*break", s, re.S) and result is None:
+                    # `if (<cexp>) break;` before the result: a conditional decline
+                    gtxt = re.fullmatch(r"if\s*\((.*)\)\s*break", s, re.S).group(1)
+                    guards.append(simp(tr(cx.parse(gtxt), cx, env)))
                 else:
                     m = re.fullmatch(r"foam\s*=\s*(\w+)\s*\((.*)\)", s, re.S)
                     if m and m.group(1) in CFOLD_NEW:
@@ -548,7 +555,11 @@ def parse_cfold(src, types, macros, leafs, sig):
                 row["exp"] = ("declined",)
                 row["rty"] = None
             else:
-                row["rty"], row["exp"] = result[0], simp(result[1])
+                e = simp(result[1])
+                for g in reversed(guards):
+                    e = ("guard", g, e)
+                row["rty"], row["exp"] = result[0], e
+                row["guards"] = len(guards)
         except CParseError as ex:
             row["exp"] = ("opaque", row["text"] or str(ex))
             row["why"] = str(ex)
@@ -919,16 +930,18 @@ def emit_coq(tr_, known_bad):
         w("(* rows listed in known_findings.json (property C04, key \"%s:<Builtin>\") *)" % route)
         w("Definition known_bad_%s : list string := [%s]." % (
             route, "; ".join('"%s"' % n for n in sorted(known_bad.get(route, [])))))
+    w("(* folder rows listed in known_findings.json as still trapping at compile time (key \"cfoldfault:<Builtin>\") *)")
+    w("Definition known_fault_cfold : list string := [%s]." % "; ".join('"%s"' % n for n in sorted(known_bad.get("cfoldfault", []))))
     w("")
     return "\n".join(L)
 
 
 def known_bad_from(findings):
-    kb = {"cfold": set(), "fint": set(), "genc": set()}
+    kb = {"cfold": set(), "fint": set(), "genc": set(), "cfoldfault": set()}
     for f in findings.get("findings", []):
         if f.get("property") != "C04":
             continue
-        m = re.fullmatch(r"(cfold|fint|genc):(\w+)", f.get("key", ""))
+        m = re.fullmatch(r"(cfold|fint|genc|cfoldfault):(\w+)", f.get("key", ""))
         if m:
             kb[m.group(1)].add(m.group(2))
     return kb
